@@ -580,6 +580,11 @@ impl EndpointConfig {
         &self.quinn_client_config
     }
 
+    #[cfg(bmwill_anemo_verif)]
+    pub(crate) fn verif_client_certificate(&self) -> &CertificateDer<'static> {
+        &self.client_certificate
+    }
+
     // TODO: remove #[allow(deprecated)] once we upgrade rustls
     // to 0.21.4 or above, where `with_single_cert` is marked as
     // deprecated. Before that happens, we use the attribute to
